@@ -117,6 +117,7 @@ def run(ctx):
     ctx.rule("R1.revalidate-after-callback", "no cell access / state write reachable after a callback (under a non-terminal observation) without re-reading the state", floor=8)
     ctx.rule("R2.terminal-before-wake", "Waker::wake dominated by state.set(SET|DISCONNECTED), no later non-terminal set", floor=2)
     ctx.rule("R8.no-event-access-after-wake", "sender side: once the terminal state is stored and the awaiter's waker has been invoked the receiver may have released the storage - nothing derived from the event reference is used afterwards", floor=2)
+    ctx.rule("R9.transition-on-every-path", "set / sender drop / receiver cancel write the state cell on every normal path", floor=3)
     ctx.rule("R3.extraction-is-last", "after the payload is moved out no callback site is reachable before return", floor=3)
     ctx.rule("R4.clone-before-cell", "Waker::clone dominates the first cell access and the state read in poll_bound / poll_awaiting", floor=2)
     ctx.rule("R5.revert-before-drop", "final_poll: state.set(BOUND) dominates the stored waker's destruction; a state.get() follows it before the disconnect store", floor=2)
@@ -194,6 +195,15 @@ def run(ctx):
                 ok = ok and not later
                 ctx.ob("R2.terminal-before-wake", name, ok, b.loc(t["span"]),
                        f"stores dominating the wake: {[o['val'] for o in sets]}; stores after it: {[o['val'] for o in later]}")
+
+    # ---------------- R9
+    for name in ("set", "sender_dropped_without_set", "final_poll"):
+        b = fn.get(name)
+        if b is None:
+            continue
+        ws = [o["bb"] for o in state_ops(b) if o["op"] in ("set", "replace")]
+        pc = path_count(b, ws)
+        ctx.ob("R9.transition-on-every-path", name, bool(ws) and pc[0] >= 1, b.loc(), f"state writes per normal path (min,max)={pc}")
 
     # ---------------- R8
     for name in ("set", "sender_dropped_without_set"):
